@@ -120,6 +120,8 @@ def request_spec(draw, apps):
     }
     if fault == 'column':
         req['drop'] = draw(st.sampled_from(['x', 'rid', 'delay']))
+    # clients list the features in their own order (JSON objects / CSV header): 0 = the query's order
+    req['order'] = draw(st.sampled_from([0, 0, 0, 1, 2, 3, 4, 5]))
     return req
 
 
@@ -416,6 +418,8 @@ def classes_of(spec: dict) -> tuple[list, bool]:
     classes += [f'fault:{f}' for f in faults]
     if faults:
         classes.append('fault:any')
+    if len({r.get('order', 0) for r in reqs}) > 1:
+        classes.append('orders:mixed')
     if reqs[0]['fault'] != 'none':
         classes.append('fault:first-position')
     if reqs[-1]['fault'] != 'none':
